@@ -32,6 +32,10 @@ class DeflateZipModel(JWEZipModel):
         # consumed but the decompressor still holds output it could not deliver
         if decompressor.unconsumed_tail or decompressor.decompress(b"", 1):
             raise ExceededSizeError(f"Decompressed string exceeds {MAX_SIZE} bytes")
+        # a stream that stops before its final block would yield a plaintext
+        # that is silently cut short
+        if not decompressor.eof:
+            raise DecodeError("Invalid DEFLATE data: incomplete stream")
         return value
 
 
